@@ -385,6 +385,33 @@ def check_branches(trie, db, st, ctx, out):
             fail("get_trie_nodes-not-exactly-the-reachable-nodes", {"got": len(set(tn)), "want": len(nodes)})
     except Exception as x:  # noqa
         fail("get_trie_nodes-raised", {"exc": type(x).__name__})
+    # values are opaque: a stored value that happens to be the hash of a node in the same database (a
+    # root kept as a value, an account pointing at its storage trie) is not a child.  One key of a
+    # copy of the trie gets the root hash as its value; the nodes of the new trie are computed here
+    # from the type bytes alone
+    stored = [bits_to_bytes(e["k"]) for e in st["br"] if e["stored"]]
+    if stored and st["root"]:
+        count("get_trie_nodes:value-is-a-node-hash")
+        try:
+            db2 = dict(db)
+            t2 = mod.BinaryTrie(db2, rh)
+            t2.set(stored[0], rh)
+            reach, todo = set(), [t2.root_hash]
+            while todo:
+                h = todo.pop()
+                body = db2[h]
+                reach.add(body)
+                if body[0] == 1:
+                    todo += [body[1:33], body[33:65]]
+                elif body[0] == 0:
+                    todo.append(body[-32:])
+            if set(br.get_trie_nodes(db2, t2.root_hash)) != reach:
+                fail("get_trie_nodes-follows-a-value-that-is-a-node-hash", {"key": stored[0]})
+            w = br.get_witness_for_key_prefix(db2, t2.root_hash, b"")
+            if any(n not in reach for n in w):
+                fail("witness-contains-a-node-not-in-the-trie", {"prefix": b"", "value-is-a-node-hash": True})
+        except Exception as x:  # noqa
+            fail("get_trie_nodes-raised", {"exc": type(x).__name__, "value-is-a-node-hash": True})
     look = want_table(st["look"])
     for e in st["wit"]:
         count("get_witness_for_key_prefix")
